@@ -802,7 +802,7 @@ def run(ctx):
     # ---- correspondence: model vs implementation on histories of access paths
     rng = ctx.sub_rng("corr")
     groups = [("histories", corr_cases(ctx, rng, ctx.scale(2000, 12000), 48, ctx.scale(9, 14)), 250),
-              ("buffer-and-chunk-boundaries", corr_big_cases(ctx.sub_rng("corr-big"), ctx.scale(20, 80)), 1)]
+              ("buffer-and-chunk-boundaries", corr_big_cases(ctx.sub_rng("corr-big"), ctx.scale(20, 48)), 1)]
     for name, cases, shard in groups:
         bad = ctx.corr(name, IMPORTS, FN, cases, in_type=IN_TYPE, shard=shard)
         for i in bad[:6]:
@@ -821,10 +821,9 @@ def run(ctx):
     deep = 0
     for ci, cfg in enumerate(cfgs):
         # quick: depth 3 everywhere, depth 4 on the declared-length configurations with a small temp-file limit and
-        # on the terminated input; thorough: depth 4 everywhere, depth 5 on two
+        # on the terminated input; thorough: depth 4 everywhere, depth 5 on one
         if ctx.thorough:
-            d_here = 5 if (cfg["cl"] == "10" and cfg["limit"] == 2 and not cfg["seekable"] and cfg["term"] is None) or \
-                (cfg["cl"] is None and cfg["term"] and cfg["limit"] == 2) else 4
+            d_here = 5 if (cfg["cl"] == "10" and cfg["limit"] == 2 and not cfg["seekable"] and cfg["term"] is None) else 4
         else:
             d_here = 4 if (cfg["cl"] == "10" and cfg["limit"] == 2 and not cfg["seekable"]) or \
                 (cfg["cl"] is None and cfg["term"]) else 3
@@ -840,7 +839,7 @@ def run(ctx):
 
     # ---- oracle 2: random histories incl. text/json setters and the other file methods of body_file
     r2 = ctx.sub_rng("oracle-random")
-    m = ctx.scale(60000, 1200000)
+    m = ctx.scale(60000, 600000)
     for _ in range(m):
         cfg = rand_cfg(r2, 70)
         if cfg["seekable"]:
@@ -855,7 +854,7 @@ def run(ctx):
 
     # ---- oracle 3: bodies around the buffer size and the 65535 copy step, limits below/at/above
     r3 = ctx.sub_rng("oracle-big")
-    m = ctx.scale(1500, 20000)
+    m = ctx.scale(1500, 10000)
     for cfg, hist in big_cases(r3, m):
         res = oracle_history(cfg, hist)
         if res:
